@@ -122,7 +122,7 @@ harness! {
         put_sq(&mut w, &mut n, dst);
         put_check(&mut w, &mut n, check);
         check_text(Move { data: Data::Simple { piece, file, rank, is_capture, dst }, check }, &w, n);
-        cover!(n == 8);
+        cover!(n == 7);
     }
 }
 harness! {
@@ -143,7 +143,7 @@ harness! {
         put_sq(&mut w, &mut n, dst);
         put_check(&mut w, &mut n, check);
         check_fmt(Move { data: Data::Simple { piece, file, rank, is_capture, dst }, check }, &w, n);
-        cover!(n == 8);
+        cover!(n == 7);
     }
 }
 // totality: every UTF-8 string of <= 6 bytes (validity decided by the byte automaton of textutil.rs)
